@@ -15,6 +15,7 @@ FIXES = {  # commit -> (property, expected rule prefix, what)
     "f36f655": ("C12", "R12.", "CommitmentProof.Validate accepts nil subtree root proofs"),
     "93fd4c5": ("C20", "R20.", "retry loop ignores the service context"),
     "f827021": ("C07", "R7.", "file descriptors leaked on bad header / after size validation"),
+    "ce6f01d": ("C17", "R17.8", "stale cool-down entry re-activates a re-added peer ahead of its second cool-down"),
 }
 SEED_EXPECT = {
     "C01-1": "R1.2", "C01-2": "R1.2", "C02-1": "R2.1", "C02-2": "R2.2", "C03-1": "R3.2", "C03-2": "R3.6",
